@@ -388,6 +388,25 @@ func genFaults(c *ctx) {
 		b.pre = []c01tPre{{rel: "f0.bin", content: old}}
 		bases = append(bases, b)
 	}
+	// the same over more than one hash block (10 MiB each): destination = first block of the source, second
+	// block different; faults on the answers of the hash exchange
+	for i := 0; i < c.pick(1, 4); i++ {
+		b := &c02Base{root: filepath.Join(work, fmt.Sprintf("rb%d", i)), kind: "resume-blocks"}
+		k := int(c.rng.Int63n(8))
+		b.cfg = e2eCfg{upload: k%2 == 0, binary: (k/2)%2 == 0, proto: 3 + (k/4)%2, timeout: 3, quiet: true, overwrite: true,
+			deadline: 60 * time.Second, startWait: 1500 * time.Millisecond, compress: "yes"}
+		rng := rand.New(rand.NewSource(c.rng.Int63()))
+		os.MkdirAll(filepath.Join(b.root, "s"), 0755)
+		B := int(trzsz.VerifPrefixHashStep())
+		src := fillBytes(rng, 2*B+1000+rng.Intn(5000), 2)
+		p := filepath.Join(b.root, "s", "f0.bin")
+		os.WriteFile(p, src, 0644)
+		b.tops = []string{p}
+		old := append([]byte{}, src[:2*B]...)
+		old[B+rng.Intn(B)] ^= 0x20
+		b.pre = []c01tPre{{rel: "f0.bin", content: old}}
+		bases = append(bases, b)
+	}
 	// directory mode, protocol 4, a directory with children: the archive stream
 	for i := 0; i < c.pick(2, 8); i++ {
 		b := &c02Base{root: filepath.Join(work, fmt.Sprintf("a%d", i)), kind: "archive"}
@@ -512,6 +531,27 @@ func genFaults(c *ctx) {
 			}
 			return f
 		}
+		if b.kind == "resume-blocks" {
+			// the answers of the hash exchange are the 3rd, 4th ... line of the answering direction
+			// (after the echo of NUM and the name reply): one of them lost, doubled, or forged
+			for k := 0; k < c.pick(3, 12); k++ {
+				f := faultSpec{dir: 1 - ddir, kind: []string{"dropline", "dupline", "forge"}[k%3], prefix: "#SUCC:", nth: 3 + (k/3)%2, bit: uint(c.rng.Intn(8))}
+				if f.kind == "dropline" {
+					cnt := 0
+					for _, lr := range lines[f.dir] {
+						if bytes.HasPrefix(b.wire[f.dir][lr[0]:], []byte(f.prefix)) {
+							cnt++
+							if cnt == f.nth {
+								f.kind, f.offset, f.end = "cut", lr[0], lr[1]
+								break
+							}
+						}
+					}
+				}
+				cases = append(cases, &fcase{b: b, fs: []faultSpec{f}, phase: []string{"SUCC(hash)"}})
+			}
+			continue
+		}
 		for k := 0; k < per; k++ {
 			fc := &fcase{b: b}
 			nf := []int{1, 1, 1, 1, 2, 2, 2, 3}[c.rng.Intn(8)]
@@ -590,6 +630,10 @@ func genFaults(c *ctx) {
 			c.count("outcome:error")
 		}
 		key := "silent-corruption:" + fc.fs[0].kind + ":" + fc.phase[0]
+		if fc.b.kind == "resume-blocks" {
+			// one fault on an answer of the prefix-hash exchange
+			key = "resume-hash-answer:" + map[string]string{"cut": "lost", "dupline": "doubled", "forge": "forged"}[fc.fs[0].kind]
+		}
 		desc := fmt.Sprintf("faults %s phases=%v %s kind=%s", strings.Join(fss, " "), fc.phase, describeCfg(fc.b.cfg), fc.b.kind)
 		if fc.bad != "" {
 			var bits []string
